@@ -50,7 +50,8 @@ class C10History:
 
     # the reference depends only on the source tree: cache it per tree state
     def reference(self):
-        key = repr(sorted(self.sim.world.snapshot('src').items()))
+        key = repr(sorted(self.sim.world.snapshot('src').items())) + \
+            repr(self.sim.proj.conf_args)
         if self.ref_key != key:
             fresh, files, _ = self.sim.fresh_reference()
             self.ref = (fresh.ok, declared_outputs(self.sim, files))
@@ -69,6 +70,16 @@ class C10History:
     def run_bfg_like(self, how, fault=None):
         sim = self.sim
         if how == 'configure':
+            return sim.configure(fault=fault)
+        if how.startswith('reconfigure:'):
+            # configure again over the existing build directory with another
+            # command line: from now on that is the configuration every
+            # later run (and the uninterrupted reference) is about
+            extra = how[len('reconfigure:'):].split(' ')
+            base = [a for a in sim.proj.conf_args
+                    if not any(a.startswith(e.split('=')[0]) for e in extra)]
+            sim.proj.conf_args = base + extra
+            self.ref_key = None
             return sim.configure(fault=fault)
         if how == 'regenerate':
             return sim.bfg(['regenerate', sim.world.build], fault=fault)
@@ -251,7 +262,12 @@ def trigger_edit(rng, sim, proj):
     return [], 'none'
 
 
+RECONF_ARGS = ['--enable-static', '--disable-shared --enable-static',
+               '--disable-compdb', '--prefix=@W@/otherprefix',
+               '--libdir=@W@/prefix/lib64']
+
 SCRIPT_FAULTS = {
+    'exit-message': lambda t: t + "exit('stop: something is missing')\n",
     'raise-first': lambda t: "raise RuntimeError('injected')\n" + t,
     'raise-last': lambda t: t + "raise RuntimeError('injected')\n",
     'exit-3': lambda t: t + "import sys\nsys.exit(3)\n",
@@ -311,7 +327,8 @@ def run_case(seed, root, params=None):
     saved = root + '.saved'
     try:
         victim = rng.choice(['backend', 'backend', 'backend', 'regenerate',
-                             'lazy', 'configure', 'first-configure'])
+                             'lazy', 'configure', 'first-configure',
+                             'reconfigure'])
         pre_ops = []
         if victim != 'first-configure':
             pre_ops.append(['pre', 'configure'])
@@ -324,6 +341,9 @@ def run_case(seed, root, params=None):
         for e in edits:
             sim.apply_edit(e)
         how = 'configure' if victim == 'first-configure' else victim
+        if victim == 'reconfigure':
+            how = 'reconfigure:' + rng.choice(RECONF_ARGS).replace(
+                '@W@', w.root)
         n_follow = rng.randint(1, 2)
         follow_kinds = ['backend', 'backend', 'backend', 'lazy', 'regenerate']
         followups = [['attempt', rng.choice(follow_kinds)]
@@ -332,8 +352,11 @@ def run_case(seed, root, params=None):
         w.save_state(saved)
         base_ops = pre_ops + edits
 
+        conf0 = list(proj.conf_args)
+
         def one(fault, extra_edits=(), post_victim=()):
             w.restore_state(saved)
+            proj.conf_args[:] = conf0
             sim.stats = {}
             h = C10History(sim)
             ops = list(extra_edits) + [['victim', how, fault]] + \
@@ -353,11 +376,29 @@ def run_case(seed, root, params=None):
         else:
             # census: fault-free victim run to learn the event stream
             w.restore_state(saved)
+            proj.conf_args[:] = conf0
             hc = C10History(sim)
             n0 = sim.world.log_len('invocations')
             run_ops(hc, [['victim', how, None]])
             inv = sim.world.read_jsonl('invocations')[n0:]
             events = inv[0]['events'] if inv else []
+            if hc.trace and hc.trace[-1][0] == 'victim' and \
+               hc.trace[-1][2] == 0:
+                ok, ref = hc.reference()
+                diff = sim.diff_files(declared_outputs(sim), ref) if ok \
+                    else []
+                if diff:
+                    hc.violations.append(Violation(
+                        PROP, 'uninterrupted-equals-fresh',
+                        'a fault-free `{}` over the existing build '
+                        'directory leaves {} different from a configure '
+                        'into an empty directory'.format(how, diff),
+                        {'backend=' + backend, 'victim=' + how.split(':')[0]}
+                        | {'stale:' + os.path.basename(d) for d in diff},
+                        len(base_ops)))
+                    results.append({'ops': base_ops + [['victim', how,
+                                                        None]],
+                                    'hist': hc, 'fault': None})
             stats['census_events'] = stats.get('census_events', 0) + \
                 len(events)
             n = params.get('points_per_scenario')
